@@ -35,6 +35,9 @@
 
 #include "wbxml_config_internals.h"
 #include "wbxml_tree.h"
+
+/** Name given by a namespace-aware XML parser to the reserved "xml" prefix, followed by the separator */
+#define WBXML_XML_NAMESPACE_URI "http://www.w3.org/XML/1998/namespace" WBXML_NAMESPACE_SEPARATOR_STR
 #include "wbxml_log.h"
 #include "wbxml_parser.h"
 #include "wbxml_encoder.h"
@@ -718,8 +721,28 @@ WBXML_DECLARE(WBXMLError) wbxml_tree_node_add_xml_attr(const WBXMLLangEntry *lan
     if ((attr = wbxml_attribute_create()) == NULL)
         return WBXML_ERROR_NOT_ENOUGH_MEMORY;
 
+    /* The XML parser (namespace processing) reports the reserved "xml:" attributes
+     * (xml:lang, xml:space) as "<XML namespace URI>|lang": give them back their name */
+    if (WBXML_STRNCMP(name, WBXML_XML_NAMESPACE_URI, WBXML_STRLEN(WBXML_XML_NAMESPACE_URI)) == 0) {
+        WBXMLBuffer *xml_name = wbxml_buffer_create_from_cstr("xml:");
+
+        if ((xml_name == NULL) ||
+            !wbxml_buffer_append_cstr(xml_name, name + WBXML_STRLEN(WBXML_XML_NAMESPACE_URI)))
+        {
+            wbxml_buffer_destroy(xml_name);
+            wbxml_attribute_destroy(attr);
+            return WBXML_ERROR_NOT_ENOUGH_MEMORY;
+        }
+
+        if ((attr_entry = wbxml_tables_get_attr_from_xml(lang_table, wbxml_buffer_get_cstr(xml_name), (WB_UTINY *)value, NULL)) != NULL)
+            attr->name = wbxml_attribute_name_create_token(attr_entry);
+        else
+            attr->name = wbxml_attribute_name_create_literal(wbxml_buffer_get_cstr(xml_name));
+
+        wbxml_buffer_destroy(xml_name);
+    }
     /* Set Attribute Name */
-    if ((attr_entry = wbxml_tables_get_attr_from_xml(lang_table, (WB_UTINY *)name, (WB_UTINY *)value, NULL)) != NULL)
+    else if ((attr_entry = wbxml_tables_get_attr_from_xml(lang_table, (WB_UTINY *)name, (WB_UTINY *)value, NULL)) != NULL)
         attr->name = wbxml_attribute_name_create_token(attr_entry);
     else
         attr->name = wbxml_attribute_name_create_literal((WB_UTINY *)name);
